@@ -7,21 +7,25 @@ import mutants as M
 
 
 def stability(units, seed, files=None):
-    """second Verus run of each (already generated) unit file with a different rlimit and random seed"""
+    """three more Verus runs of each (already generated) unit file with a different rlimit and three random seeds"""
     out = {}
     for u in units:
         path = (files or {}).get(u) or os.path.join(HERE, ".work", u + ".rs")
         if not os.path.exists(path):
             continue
-        t0 = time.time()
-        p = subprocess.run(["verus", os.path.basename(path), "--output-json", "--rlimit", "30", "--smt-option", "smt.random_seed=%d" % (seed % 1000 + 1),
-                            "--num-threads", "8"], cwd=os.path.dirname(path), capture_output=True, text=True, timeout=1800)
-        try:
-            js = json.loads(p.stdout[p.stdout.find("{"):])
-            vr = js["verification-results"]
-            out[u] = dict(verified=vr["verified"], errors=vr["errors"], seconds=round(time.time() - t0, 1), seed=seed % 1000 + 1, rlimit=30)
-        except Exception:
-            out[u] = dict(error="no result")
+        runs = []
+        for sd in (seed % 1000 + 1, seed % 1000 + 101, seed % 1000 + 201):
+            t0 = time.time()
+            p = subprocess.run(["verus", os.path.basename(path), "--output-json", "--rlimit", "30", "--smt-option", "smt.random_seed=%d" % sd,
+                                "--num-threads", "8"], cwd=os.path.dirname(path), capture_output=True, text=True, timeout=1800)
+            try:
+                js = json.loads(p.stdout[p.stdout.find("{"):])
+                vr = js["verification-results"]
+                runs.append(dict(verified=vr["verified"], errors=vr["errors"], seconds=round(time.time() - t0, 1), seed=sd, rlimit=30))
+            except Exception:
+                runs.append(dict(error="no result", seed=sd))
+        out[u] = dict(verified=min((r.get("verified", 0) for r in runs), default=0), errors=max((r.get("errors", 1) for r in runs), default=1),
+                      seconds=round(sum(r.get("seconds", 0) for r in runs), 1), seeds=[r["seed"] for r in runs], rlimit=30, runs=runs)
     return out
 
 
